@@ -78,6 +78,9 @@ ToLikelihood(o, m) ==
     /\ objs' = Append(objs, [Obj("lik", {objs[o].name}, o, objs[o].name) EXCEPT !.view = (m = "method")])
     /\ hist' = Append(hist, <<"to_likelihood", o, <<m>>>>)
 
+\* i is a view (a likelihood made by the method to_likelihood) of the object o
+ViewOf(i, o) == objs[i].view /\ objs[i].origin = o
+
 \* a stand-alone conditional distribution conditioned on its parameter: a new object, the original untouched
 CondFactor(o) ==
     /\ Room /\ objs[o].kind = "composite" /\ objs[o].fixed = {}
@@ -89,7 +92,7 @@ MutateCopy(o) ==
     /\ Len(hist) < MaxDepth
     /\ objs[o].origin # 0 /\ objs[o].kind \in {"factor", "composite", "lik"} /\ ~objs[o].view
     /\ objs' = [i \in 1..Len(objs) |->
-                  IF i = o THEN [objs[i] EXCEPT !.ver = @ + 1]
+                  IF i = o \/ ViewOf(i, o) THEN [objs[i] EXCEPT !.ver = @ + 1]      \* a view shows its underlying object
                   ELSE IF DevSharedInner /\ i = objs[o].origin THEN [objs[i] EXCEPT !.ver = @ + 1]
                   ELSE objs[i]]
     /\ hist' = Append(hist, <<"mutate_copy", o, <<>>>>)
@@ -146,7 +149,8 @@ Spec == Init /\ [][Next]_vars
 \* ---- properties ------------------------------------------------------------------------
 \* nothing but creation: the identity of every existing object is unchanged by every action
 Frame == [][\A i \in 1..Len(objs) :
-              (hist'[Len(hist')][1] \in {"mutate_copy", "mutate_original"} /\ hist'[Len(hist')][2] = i) \/ objs'[i] = objs[i]]_vars
+              (hist'[Len(hist')][1] \in {"mutate_copy", "mutate_original"} /\ (hist'[Len(hist')][2] = i \/ ViewOf(i, hist'[Len(hist')][2])))
+              \/ objs'[i] = objs[i]]_vars
 \* a conditioned / derived copy keeps the name of its original
 NameKept == \A i \in Ids : (objs[i].origin # 0 /\ objs[i].kind \in {"lik", "model"}) => objs[i].name = objs[objs[i].origin].name
 \* originals never carry constants, and change only when the user assigns to them
